@@ -96,6 +96,197 @@ def next_direction_ok(ret, cname="c"):
     return not bad, (f"with c = 1/2: (up, x) -> result {res}" + (f"; expected {want}" if bad else ""))
 
 
+def check_eft_accounting(r, repo, rule="R11.4"):
+    """3Sum / double-word addition / 4Sum / dot2 / mul_add: error-free accounting under exact-arithmetic semantics.
+
+    The bodies are interpreted (sa/absint.py) on exact polynomials with the kernels summarised by their contracts: 2Sum(a, b) ->
+    (s, a + b - s), Dekker product(x, y) -> (p, x*y - p) with s, p fresh symbols.  add_3sum must return (s, e, t) with
+    s + e + t == x + y + z for every choice of s; for the rounded results (add_dw, add_4sum, dot2, mul_add) the arm selected
+    when the residual t vanishes, plus that residual, must equal the exact result, and every other arm must be that arm's base
+    plus a multiple of the correction term (zh, zh + r, zh + 3/2 r).  A dropped, duplicated or mis-signed error term breaks the
+    identity.  The rounding decision itself (which arm) and the ULP bounds are not decided."""
+    from fractions import Fraction
+    from sa.absint import Interp, Closure, Unsupported as IUnsupported, PyRaise
+    from rules.C12 import Poly
+
+    class Cond:
+        __absint_host__ = True
+
+        def __init__(self, op, a, b):
+            self.op, self.a, self.b = op, a, b
+
+    class RV(Poly):
+        __absint_host__ = True
+
+        def _c(op):
+            def f(self, o):
+                return Cond(op, self, o)
+            return f
+
+        __eq__, __ne__, __lt__, __le__, __gt__, __ge__ = _c("=="), _c("!="), _c("<"), _c("<="), _c(">"), _c(">=")
+
+        def __hash__(self):
+            return id(self)
+
+        def same(self, o):
+            return Poly.__eq__(self, o)
+
+    def _wrap(name):
+        base = getattr(Poly, name)
+
+        def f(self, *a):
+            if a and isinstance(a[0], Sel):
+                return NotImplemented
+            out = base(self, *a)
+            return RV(out.t) if isinstance(out, Poly) and not isinstance(out, RV) else out
+        return f
+
+    def rv(p):
+        return p if isinstance(p, (RV, Sel)) else RV(p.t)
+
+    def A(name):
+        return RV({(name,): Fraction(1)})
+
+    class Sel:
+        __absint_host__ = True
+
+        def __init__(self, c, a, b, decision=False):
+            self.c, self.a, self.b = c, a, b
+            self.decision = decision  # made by ctx.select in the interpreted code (not derived by arithmetic on a selection)
+
+        def _arith(self, other, f):
+            # arithmetic on a selected value distributes over the arms; two selections on the same condition are paired arm by arm
+            if isinstance(other, Sel) and other.c is self.c:
+                return Sel(self.c, f(self.a, other.a), f(self.b, other.b))
+            return Sel(self.c, f(self.a, other), f(self.b, other))
+
+        def __sub__(self, o):
+            return self._arith(o, lambda u, v: u - v)
+
+        def __rsub__(self, o):
+            return self._arith(o, lambda u, v: v - u)
+
+        def __add__(self, o):
+            return self._arith(o, lambda u, v: u + v)
+
+        __radd__ = __add__
+
+        def __mul__(self, o):
+            return self._arith(o, lambda u, v: u * v)
+
+        __rmul__ = __mul__
+
+        def __neg__(self):
+            return Sel(self.c, -self.a, -self.b)
+
+        def _cmp(op):
+            def f(self, o):
+                return Cond(op, self, o)
+            return f
+
+        __eq__, __ne__, __lt__, __le__, __gt__, __ge__ = _cmp("=="), _cmp("!="), _cmp("<"), _cmp("<="), _cmp(">"), _cmp(">=")
+
+        def __hash__(self):
+            return id(self)
+
+    for _n in ("__add__", "__radd__", "__sub__", "__rsub__", "__mul__", "__rmul__", "__neg__", "__truediv__"):
+        setattr(RV, _n, _wrap(_n))
+
+    class Ctx:
+        __absint_host__ = True
+
+        def select(self, c, a, b):
+            return Sel(c, a, b, decision=True)
+
+        def constant(self, v, like=None):
+            return v if isinstance(v, (RV, Sel)) else RV({(): Fraction(v)})
+
+    fresh = [0]
+
+    def two_sum(ctx, a, b, *rest, **kw):
+        fresh[0] += 1
+        s_ = A(f"s{fresh[0]}")
+        return (s_, rv(a + b - s_))
+
+    def dekker(ctx, x, y, *rest, **kw):
+        fresh[0] += 1
+        p_ = A(f"p{fresh[0]}")
+        return (p_, rv(x * y - p_))
+
+    def leaves(v):
+        if isinstance(v, Sel):
+            return leaves(v.a) + leaves(v.b)
+        return [v]
+
+    def zero_tests(v, out):
+        # the rounding decision is an if / elif chain: follow the else-arms only (the arms themselves may be selections
+        # made by an inner kernel, whose own zero tests are about that kernel's result)
+        node = v
+        while isinstance(node, Sel) and node.decision:
+            c = node.c
+            if isinstance(c, Cond) and c.op == "==" and isinstance(c.b, (int, float)) and c.b == 0:
+                out.append((c.a, node.a))
+            node = node.b
+        return out
+
+    def interpret(fname, args, keep=()):
+        fresh[0] = 0
+        I = Interp(repo)
+        for nm, impl in (("add_2sum", two_sum), ("mul_dekker", dekker), ("is_power_of_two", lambda *a, **k: Cond("pow2", a[1], None))):
+            if nm not in keep:
+                I.globals_cache[(REL, nm)] = impl
+        g = repo.func(REL, fname)
+        try:
+            return I.call(Closure(g, {}, I, REL, bound_self=None), [Ctx()] + list(args)), g
+        except (IUnsupported, PyRaise, TypeError) as e:
+            raise AnalysisError(f"{REL}::{fname} is not interpretable on exact polynomials: {getattr(e, 'what', e)}")
+
+    x, y, z, w, Q, P, T32, C = (A(n) for n in ("x", "y", "z", "w", "Q", "P", "three_over_two", "C"))
+    # ---- 3Sum: exact decomposition
+    out, g = interpret("add_3sum", [x, y, z, Q, P, T32])
+    if not (isinstance(out, tuple) and len(out) == 3):
+        raise AnalysisError("add_3sum does not return a triple")
+
+    def total_of(parts):
+        """sum of values that may be selections: all combinations of arms"""
+        sums = [Poly.const(0)]
+        for p_ in parts:
+            sums = [s_ + l for s_ in sums for l in leaves(p_)]
+        return sums
+
+    # s, e, t are correlated selections of the same conditions: the sum is formed arm by arm through Sel arithmetic
+    tot = out[0] + out[1] + out[2] if not isinstance(out[0], Sel) else out[0] + (out[1] + out[2])
+    arms = leaves(tot)
+    want = x + y + z
+    ok = all(isinstance(a_, Poly) and Poly.__eq__(a_, want) for a_ in arms)
+    r.ob(rule, f"{REL}::add_3sum s + e + t == x + y + z", ok,
+         f"{len(arms)} arm combination(s); offending sums: {[repr(a_ - want) for a_ in arms if not (isinstance(a_, Poly) and Poly.__eq__(a_, want))][:2]}", loc(REL, g))
+    # ---- rounded results
+    cases = [
+        ("add_dw", [A("xh"), A("xl"), A("yh"), A("yl"), Q, P, T32], A("xh") + A("xl") + A("yh") + A("yl")),
+        ("add_4sum", [x, y, z, w, Q, P, T32], x + y + z + w),
+        ("dot2", [x, y, z, w, C, Q, P, T32], x * y + z * w),
+        ("mul_add", [x, y, z, C, Q, P, T32], x * y + z),
+    ]
+    for fname, args, exact in cases:
+        out, g = interpret(fname, args)
+        zt = zero_tests(out, [])
+        if not zt:
+            raise AnalysisError(f"{REL}::{fname}: no `residual == 0` selection found in the result")
+        okz = True
+        detail = ""
+        n_arms = 0
+        for resid, arm in zt:
+            # arm and residual may be selections on the same conditions: add them arm by arm, then look at every combination
+            tot = arm + resid if isinstance(arm, (Sel, Poly)) else None
+            for l in leaves(tot):
+                n_arms += 1
+                if not (isinstance(l, Poly) and Poly.__eq__(l, exact)):
+                    okz = False
+                    detail = f"(arm + residual) = `{l!r}` differs from the exact result by {(l - exact)!r}" if isinstance(l, Poly) else "non-polynomial arm"
+        r.ob(rule, f"{REL}::{fname} arm taken when the residual vanishes + residual == exact result", okz, detail or f"{n_arms} arm combination(s)", loc(REL, g))
+
+
 def run(repo, tier):
     r = Report("C11", tier, repo, level="other", design_ref="§3/C11")
     r.explanation = (
@@ -108,6 +299,7 @@ def run(repo, tier):
     r.assumptions = ["formulas P = 2^(p-1)+1, Q = 2^(p-1) (Graillat, Muller hal-04624238) are the correct ones"]
     r.rule("R11.1", "P/Q constants equal 2^(p-1)+1 / 2^(p-1) (resp. 2^(p-2)+1 / 2^(p-2)) at every definition site and in the docstrings", floor=12)
     r.rule("R11.2", "next(): the multiplier constant is 1 - 2^-p with p the precision of the dtype; direction of the step", floor=4)
+    r.rule("R11.4", "3Sum is an exact decomposition and the rounded compound operations account for every error term: under exact-arithmetic semantics with 2Sum / Dekker contracts, s + e + t == x + y + z and (arm taken when the residual vanishes) + residual == exact result", floor=5)
     r.rule("R11.3", "the emulated FMA variants call two_prod with fix_overflow, and that guard is the sign-symmetric |xh*yh| > largest fallback", floor=2)
 
     want = {"Q": lambda p: 2 ** (p - 1), "P": lambda p: 2 ** (p - 1) + 1}
@@ -227,6 +419,7 @@ def run(repo, tier):
     if n_fma == 0:
         raise AnalysisError("no two_prod(..., fix_overflow=...) call found in the fma implementations")
 
+    check_eft_accounting(r, repo)
     # ---- R11.2 next(): the multiplier is whatever name the select arms multiply/divide x by
     nx = repo.func(REL, "next")
     ret = [n for n in ast.walk(nx) if isinstance(n, ast.Return)][0]
